@@ -1003,7 +1003,8 @@ fn miri_stage_report(run: &mut Run, prop: &str) {
     if !unavailable.is_empty() {
         run.cov("miri_stage", format!("partly unavailable ({}); not a verdict", unavailable.join("; ")));
     } else if ok_shards as usize == logs.len() {
-        run.cov("miri_stage", format!("complete, no undefined behaviour, references agree: {}", summaries.join(" | ")));
+        let sum = |key: &str| -> u64 { summaries.iter().filter_map(|l| l.split_whitespace().find_map(|w| w.strip_prefix(key)).and_then(|x| x.parse::<u64>().ok())).sum() };
+        run.cov("miri_stage", format!("complete in {} shards: no undefined behaviour, references agree; c18_sequences={} c08_sniff_runs={}", logs.len(), sum("c18_sequences="), sum("c08_sniff_runs=")));
     }
 }
 
